@@ -38,7 +38,7 @@ def lines_for(it, r, repaired):
     if k == "hi" or dec.split("/")[0] != k:
         return None
     st = r["st"]
-    facts = "".join(st[i] for i in (1, 3, 5, 7, 9, 11))
+    facts = "".join(st[i] for i in (1, 3, 5, 7, 9, 13 if k == "get" and len(st) > 13 else 11))
     if obo and facts[2] == "1":
         return None          # root acting for somebody else: the driver's facts are about the session's own user
     topic = b.get("topic", "")
